@@ -207,6 +207,12 @@ Definition run_case (t : tree) : tree :=
                      of_list of_step (match bind_proc (type_of e) with Some p => p | None => [] end)]
       | None => bad_input
       end
+  | L [I 7%Z; te; I _] =>                                     (* the same with a NULL stored: the steps do not depend on the value *)
+      match as_cexpr te with
+      | Some e => L [of_list of_step (column_processor e);
+                     of_list of_step (match bind_proc (type_of e) with Some p => p | None => [] end)]
+      | None => bad_input
+      end
   | L [I 8%Z; tnan; tv] =>                                    (* JSON: document i is dumps'ed to i, None to -1 *)
       match as_bool tnan with
       | Some nan =>
